@@ -132,9 +132,13 @@ def run(ctx: Ctx) -> int:
     rk = uuid.uuid4()
     cch = dpapi_ng.KeyCache()
     cch.load_key(rng.randbytes(64), rk)
-    real = dpapi_ng.ncrypt_unprotect_secret(dpapi_ng.ncrypt_protect_secret(b"real-clock", SIDS["sub5"], root_key_identifier=rk, cache=cch), cache=cch)
+    try:
+        real = dpapi_ng.ncrypt_unprotect_secret(dpapi_ng.ncrypt_protect_secret(b"real-clock", SIDS["sub5"], root_key_identifier=rk, cache=cch), cache=cch)
+    except Exception as e:  # noqa
+        real = f"error:{type(e).__name__}: {e}".encode()
     if real != b"real-clock":
-        ctx.violation("rt:real_clock", "protect_then_unprotect_returns_plaintext", {"clock": "real"})
+        ctx.violation("rt:real_clock", "protect_then_unprotect_returns_plaintext", {"clock": "real", "sid": SIDS["sub5"], "result": real.decode(errors="replace")[:300]},
+                      f"round trip at the real clock for SID {SIDS['sub5']}: {real[:200]!r}")
     ctx.count(len(rows) + 1)
     bad, _ = validate(ctx, "TraceBlob", "TraceBlob.cfg", rows, chunk=4000, what="rt")
     for i, clauses in bad.items():
